@@ -158,6 +158,10 @@ def run(tier, seed, replay=None):
                'nested and or-patterns, tail/non-tail recursion, Str/Vec/Process builtins) with inputs fed through Str.toInt; '
                'distinct = distinct program text; non-trivial = accepted, compiled and compared (run not excluded)')
     layout_correspondence(ck, progs)
+    if not replay:
+        # loop lowering (lir_lowering While): Gallina model + simulation theorem, tied to every real loop
+        from checks import c01_loop
+        c01_loop.loop(ck, tier, seed)
     if ck.corr_fail and not replay:
         # the model no longer describes what the compiler does: search for a program on which the difference is observable
         # (every type of the generator's catalogue up to two generic levels, applied to every constructor path)
